@@ -32,6 +32,9 @@ let dispatch (name : string) (args : M.n list) : M.n list list =
   | "C03" -> M.run_c03 false args
   | "C03S" -> M.run_c03 true args
   | "ASM" -> M.run_asm args
+  | "OBJ" -> M.run_obj args
+  | "LC3" -> M.run_lc3 args
+  | "SRC" -> M.run_src args
   | _ -> failwith ("unknown case kind " ^ name)
 
 let () =
